@@ -1,6 +1,7 @@
 package main
 
 import (
+	"os"
 	"fmt"
 	"go/ast"
 	"go/token"
@@ -301,7 +302,14 @@ func runC13(c *Ctx) {
 		}
 		checkSingleSectionNamed(r, p, pkg, fd, "writer/atomic-change-id-snapshot")
 		var nNext, nValues, nChange int
-		ast.Inspect(fd.Body, func(nd ast.Node) bool {
+		// counted on the helper with its own stage helpers in place
+		sf := newFuncCFG(p, info, fd.Body, key)
+		seenStep := map[ast.Node]bool{}
+		visitStep := func(nd ast.Node) bool {
+			if seenStep[nd] {
+				return true
+			}
+			seenStep[nd] = true
 			switch x := nd.(type) {
 			case *ast.CallExpr:
 				k := exprKey(x.Fun)
@@ -321,7 +329,87 @@ func runC13(c *Ctx) {
 				}
 			}
 			return true
-		})
+		}
+		for _, b := range sf.G.Blocks {
+			if !b.Live {
+				continue
+			}
+			for _, nd := range b.Nodes {
+				inspectNoLit(nd, visitStep)
+			}
+		}
+		// the value handed back for notification is the value that was stored: some result of every
+		// return after a store into the value field is the very value written there (a stage helper
+		// that transforms its by-value parameter and stores that leaves the caller with the raw value)
+		if row.typ == "variable" {
+			stores := sf.Find(func(nd ast.Node) bool {
+				as, ok := nd.(*ast.AssignStmt)
+				return ok && len(as.Lhs) == 1 && len(as.Rhs) == 1 && as.Tok == token.ASSIGN && fieldSel(info, as.Lhs[0], "value")
+			})
+			okStored := len(stores) > 0
+			why := "no store into the value field"
+			for _, st := range stores {
+				sas := sf.nodeAt(st).(*ast.AssignStmt)
+				for _, rpt := range sf.FindOwn(func(nd ast.Node) bool { _, ok := nd.(*ast.ReturnStmt); return ok }) {
+					if _, reaches := sf.reach(Point{st.B, st.I + 1}, nil, func(q Point, atExit bool) bool { return !atExit && sf.At(q, rpt) }); !reaches {
+						continue
+					}
+					rs := sf.nodeAt(rpt).(*ast.ReturnStmt)
+					var results []ast.Expr
+					results = append(results, rs.Results...)
+					if len(results) == 0 && fd.Type.Results != nil {
+						for _, fl := range fd.Type.Results.List {
+							for _, nm := range fl.Names {
+								results = append(results, nm)
+							}
+						}
+					}
+					same := false
+					for _, res := range results {
+						if t, st2 := info.TypeOf(res), info.TypeOf(sas.Rhs[0]); t == nil || st2 == nil {
+							continue
+						} else if _, tp := t.(*types.TypeParam); tp {
+							// each method declares its own receiver type parameter: compare by kind only
+							if _, sp := st2.(*types.TypeParam); !sp {
+								continue
+							}
+						} else if !types.Identical(t, st2) {
+							continue
+						}
+						if sf.SameValue(res, rpt, sas.Rhs[0], st) {
+							same = true
+							continue
+						}
+						// through the return sites of a stage helper: every value the result can stand for on
+						// a path that passed the store is the stored one
+						n, all := 0, true
+						if os.Getenv("HC_DEBUG") != "" {
+							for _, o := range sf.Origins(res, rpt) {
+								fmt.Fprintf(os.Stderr, "DBG res=%s origin=%s at %s same=%v\n", exprKey(res), exprKey(o.E), sf.PosOf(o.At), sf.SameValue(o.E, o.At, sas.Rhs[0], st))
+							}
+						}
+						for _, o := range sf.Origins(res, rpt) {
+							n++
+							if !sf.SameValue(o.E, o.At, sas.Rhs[0], st) {
+								all = false
+							}
+						}
+						if n > 0 && all {
+							same = true
+						}
+					}
+					if !same {
+						okStored = false
+						why = sf.PosOf(rpt) + ": no result of this return is the value stored at " + sf.PosOf(st)
+					}
+				}
+			}
+			if okStored {
+				r.Pass("payload/applied-diff", key+" returns the stored value", p.posStr(fd.Pos()), "the value handed back for the callbacks is the value written to the field")
+			} else {
+				r.Fail("payload/applied-diff", key+" returns the stored value", p.posStr(fd.Pos()), "subscribers are told a value that is not the one stored (the transformation's result and the reported new value differ): "+why)
+			}
+		}
 		if nNext == 1 && nValues == 1 && nChange >= 1 {
 			r.Pass("writer/atomic-change-id-snapshot", key+" steps", p.posStr(fd.Pos()), "value change, update-id increment and callback snapshot all in the helper's single value-mutex section")
 		} else {
